@@ -20,7 +20,14 @@ PROPS = {
                          'bound': '16 emissions (declared, optional, nested, dynamic at depth 1 and 2, undeclared, rejected by type / validator / '
                                   'namespace, crashing validator) x outputs empty or not: 32 runs'}],
             'not_claimed': ['which values a port accepts (C11); nested emission paths are covered by the bounded search only']},
-    'C11': {'scans': [], 'trusted': [], 'bounded': [], 'not_claimed': []},
+    'C11': {'scans': [], 'trusted': [],
+            'bounded': [{'name': 'input_search', 'recipe': 'input_validation',
+                         'functions': 'PortNamespace.pre_process / validate / validate_ports / validate_dynamic_ports (recursive over the port '
+                                      'tree), Process.on_create (recursive copy of the raw inputs), Frozendict/AttributesFrozendict',
+                         'bound': 'one spec (required, optional, defaulted, callable-defaulted and validated leaf ports; a nested, a lazy and a '
+                                  'typed dynamic namespace) x 31 input variants x 3 omissions = 93 constructions against a reference model'}],
+            'not_claimed': ['the recursive namespace functions are covered by the bounded search only; proved: the verdict of a single port '
+                            '(Port.validate)']},
     'C10': {'scans': [], 'trusted': [],
             'bounded': [{'name': 'barrier_search', 'recipe': 'context_barrier',
                          'functions': 'WorkChain step -> Waiting state -> completion callbacks -> next step (history over the event loop: '
